@@ -58,34 +58,39 @@ example : [[(2, some 12)], [(0, some 10), (1, some 11)]].Perm (parsedBatches 2 [
 
 /-- **Lines splitter (custom separator).**  For every content, every non-empty separator and every window-growth
     schedule, the records are the pieces between the (leftmost, non-overlapping) occurrences of the separator,
-    without a final empty piece. -/
-theorem lines_split (sep content : Bytes) (sched : List Nat) (hsep : sep ≠ []) :
-    scanAll (splitFixed sep) content sched = .tokens (specLines sep content) := by
+    without a final empty piece — provided every piece together with its separator fits the scanner's buffer of
+    `maxTok` bytes (`fitsTok`; otherwise the scan ends with `ErrTooLong`, which the datasource returns as an error). -/
+theorem lines_split (sep content : Bytes) (sched : List Nat) (maxTok : Nat) (hsep : sep ≠ [])
+    (hfit : fitsTok maxTok sep content = true) :
+    scanAll (splitFixed sep) maxTok content sched = .tokens (specLines sep content) := by
   unfold scanAll
-  rw [scanLoop_fixed sep hsep _ [] content false sched [] (by simp) (by simp [scanMeasure, scanFuel])]
+  rw [scanLoop_fixed sep hsep maxTok _ [] content false sched [] (by simp) (by simp [scanMeasure, scanFuel]) (by simpa using hfit)]
   simp
 
 /-- **Lines splitter (default separator).**  `bufio.ScanLines`: split at "\n", drop one trailing "\r" per line. -/
-theorem lines_default (content : Bytes) (sched : List Nat) :
-    scanAll scanLines content sched = .tokens ((specLines [10] content).map dropCR) := by
+theorem lines_default (content : Bytes) (sched : List Nat) (maxTok : Nat) (hfit : fitsTok maxTok [10] content = true) :
+    scanAll scanLines maxTok content sched = .tokens ((specLines [10] content).map dropCR) := by
   unfold scanAll
-  have h := scanLoop_mapToken dropCR scanLines (splitFixed [10]) scanLines_eq (scanFuel content) [] content false sched []
+  have h := scanLoop_mapToken dropCR scanLines (splitFixed [10]) maxTok scanLines_eq (scanFuel content) [] content false sched []
   simp only [List.map_nil] at h
-  rw [h, scanLoop_fixed [10] (by simp) _ [] content false sched [] (by simp) (by simp [scanMeasure, scanFuel])]
+  rw [h, scanLoop_fixed [10] (by simp) maxTok _ [] content false sched [] (by simp) (by simp [scanMeasure, scanFuel]) (by simpa using hfit)]
   simp [ScanResult.mapTokens]
 
 def XY : Bytes := [88, 89]
 def aXYbXYc : Bytes := [97, 88, 89, 98, 88, 89, 99]
-example : scanAll (splitFixed XY) aXYbXYc [0, 1, 0] = .tokens [[97], [98], [99]] := by decide
+example : scanAll (splitFixed XY) 16 aXYbXYc [0, 1, 0] = .tokens [[97], [98], [99]] ∧ fitsTok 16 XY aXYbXYc = true := by decide
+/-- a piece that does not fit the buffer is an error, not a truncated record -/
+example : scanAll (splitFixed XY) 3 aXYbXYc [0, 1, 0] = .tokens [[97], [98], [99]] ∧ fitsTok 3 XY aXYbXYc = true ∧
+    scanAll (splitFixed XY) 2 aXYbXYc [5] = .tooLong [] ∧ fitsTok 2 XY aXYbXYc = false := by decide
 example : specLines XY aXYbXYc = [[97], [98], [99]] := by decide
 /-- a separator that overlaps itself: `aaa` split at `aa` is "", "a" -/
 example : specLines [97, 97] [97, 97, 97] = [[], [97]] := by decide
-example : scanAll (splitFixed [97, 97]) [97, 97, 97] [] = .tokens [[], [97]] := by decide
+example : scanAll (splitFixed [97, 97]) 16 [97, 97, 97] [] = .tokens [[], [97]] := by decide
 
 /-- the code before the repair advanced by one byte instead of `len(sep)`: `aXYbXYc` gave `a`, `Yb`, `Yc` -/
 theorem lines_raw_refuted :
-    scanAll (splitRaw XY) aXYbXYc [] = .tokens [[97], [89, 98], [89, 99]] ∧
-    scanAll (splitRaw XY) aXYbXYc [] ≠ .tokens (specLines XY aXYbXYc) := by decide
+    scanAll (splitRaw XY) 16 aXYbXYc [] = .tokens [[97], [89, 98], [89, 99]] ∧
+    scanAll (splitRaw XY) 16 aXYbXYc [] ≠ .tokens (specLines XY aXYbXYc) := by decide
 
 /-! ## 3. stdin: the preview buffer replayed before the rest of stdin -/
 
@@ -144,14 +149,16 @@ theorem json_record_iff_fits (schema : Fields) (ks : List Name) (vs : List J) :
   split <;> simp_all
 
 /-- **JSON, whole file.**  A successful run returns exactly one record per line, the `i`-th record being the
-    conversion of the `i`-th line (whatever the schedule of the parser workers: `reorder_correct` applied to these
-    records), and that record carries the line's values. -/
+    conversion of the `i`-th line and carrying the line's values; and the consumer loop, fed with the parser workers'
+    results for the reader's jobs in ANY order (any permutation, any position of reader-done), returns exactly these
+    records in line order. -/
 theorem json_run_rows (rows : List J) (schema : Fields) (recs : List (List Value)) (h : jsonRun rows = .ok schema recs) :
     recs.length = rows.length ∧
     (∀ (i : Nat) (rec : List Value), recs[i]? = some rec → ∃ row, rows[i]? = some row ∧ rowValues schema row = some rec ∧
       zipAll (fun (f : Name × Ty) v => represents f.2 v (row.get f.1)) schema rec = true) ∧
-    (∀ (b : Nat), 0 < b → ∀ bs : List (List (Nat × Option (List Value))), bs.Perm (parsedBatches b recs) → ∀ pos,
-      consume recs.length QState.init false (schedule bs pos) = .stopped recs []) := by
+    (∀ (b : Nat), 0 < b → ∀ bs : List (List (Nat × Option (List Value))),
+      bs.Perm ((mkBatches b rows).map (parseBatch (rowValues schema))) → ∀ pos,
+      consume rows.length QState.init false (schedule bs pos) = .stopped recs []) := by
   unfold jsonRun at h
   split at h
   · cases h
@@ -161,7 +168,13 @@ theorem json_run_rows (rows : List J) (schema : Fields) (recs : List (List Value
     · next recs' hr =>
       cases h
       obtain ⟨hl, hi⟩ := allSome_spec _ _ hr
-      refine ⟨by simpa using hl, ?_, fun b hb bs hp pos => reorder_correct recs b hb bs hp pos⟩
+      have hmap := allSome_eq_map _ _ hr
+      have hlen : recs.length = rows.length := by simpa using hl
+      refine ⟨hlen, ?_, fun b hb bs hp pos => ?_⟩
+      rotate_left
+      · rw [parseBatch_batches (rowValues schema) b rows recs hmap] at hp
+        rw [← hlen]
+        exact reorder_correct recs b hb bs hp pos
       intro i rec hrec
       have := hi i rec hrec
       rw [List.getElem?_map] at this
@@ -216,8 +229,10 @@ def Statement (split : Bytes → Bytes → Bool → SplitRes) (rowv : Fields →
   (∀ (α : Type) (recs : List α) (b : Nat), 0 < b → ∀ bs : List (List (Nat × Option α)),
       bs.Perm (parsedBatches b recs) → ∀ pos, consume recs.length QState.init false (schedule bs pos) = .stopped recs []) ∧
   -- the lines source splits exactly at the separator
-  (∀ sep content sched, sep ≠ [] → scanAll (split sep) content sched = .tokens (specLines sep content)) ∧
-  (∀ content sched, scanAll scanLines content sched = .tokens ((specLines [10] content).map dropCR)) ∧
+  (∀ sep content sched maxTok, sep ≠ [] → fitsTok maxTok sep content = true →
+      scanAll (split sep) maxTok content sched = .tokens (specLines sep content)) ∧
+  (∀ content sched maxTok, fitsTok maxTok [10] content = true →
+      scanAll scanLines maxTok content sched = .tokens ((specLines [10] content).map dropCR)) ∧
   -- stdin is delivered unchanged after any preview
   (∀ content sessions, realOpen (previewSessions ⟨[], content⟩ sessions) = content) ∧
   -- records carry the values of their rows
@@ -228,12 +243,12 @@ def Statement (split : Bytes → Bytes → Bool → SplitRes) (rowv : Fields →
 /-- **C23 on the current tree** (for the modelled pieces; parquet and the libraries are outside, see notes) -/
 theorem C23_full : Statement splitFixed rowValues :=
   ⟨fun _ recs b hb bs hp pos => reorder_correct recs b hb bs hp pos,
-   fun sep content sched hsep => lines_split sep content sched hsep,
-   lines_default, stdin_replay, json_record_faithful, csv_cell_faithful⟩
+   fun sep content sched maxTok hsep hfit => lines_split sep content sched maxTok hsep hfit,
+   fun content sched maxTok hfit => lines_default content sched maxTok hfit, stdin_replay, json_record_faithful, csv_cell_faithful⟩
 
 /-- the tree before the repairs violated it (lines separator; JSON null inside a union) -/
 theorem C23_shipped_refuted : ¬ Statement splitRaw rowValuesRaw := by
   intro ⟨_, h2, _⟩
-  exact lines_raw_refuted.2 (h2 XY aXYbXYc [] (by decide))
+  exact lines_raw_refuted.2 (h2 XY aXYbXYc [] 16 (by decide) (by decide))
 
 end Octo.C23
